@@ -188,6 +188,9 @@ fn run_w<const B: usize, const L: usize>(scn: &Obj) -> Value {
                 ev.rec("der", || match U::<B, L>::from_der(&x) { Ok(v) => ok1(v), Err(_) => err() });
                 // content octets handed to the Int / Uint / Any reference types
                 ev.rec("der_anyref", || match der::asn1::AnyRef::from_der(&x) { Ok(any) => match U::<B, L>::try_from(any) { Ok(v) => ok1(v), Err(_) => err() }, Err(_) => Value::Array(vec!["skip".to_j()]) });
+                // the owned Any shapes (by reference and by value)
+                ev.rec("der_any_r", || match der::asn1::Any::from_der(&x) { Ok(any) => match U::<B, L>::try_from(&any) { Ok(v) => ok1(v), Err(_) => err() }, Err(_) => Value::Array(vec!["skip".to_j()]) });
+                ev.rec("der_any_o", || match der::asn1::Any::from_der(&x) { Ok(any) => match U::<B, L>::try_from(any) { Ok(v) => ok1(v), Err(_) => err() }, Err(_) => Value::Array(vec!["skip".to_j()]) });
                 ev.rec("der_intref", || match der::asn1::IntRef::new(&x) { Ok(i) => match U::<B, L>::try_from(i) { Ok(v) => ok1(v), Err(_) => err() }, Err(_) => Value::Array(vec!["skip".to_j()]) });
                 ev.rec("der_uintref", || match der::asn1::UintRef::new(&x) { Ok(i) => match U::<B, L>::try_from(i) { Ok(v) => ok1(v), Err(_) => err() }, Err(_) => Value::Array(vec!["skip".to_j()]) });
             }
